@@ -59,6 +59,14 @@ def make_eval_objects(name, variant, seed):
         rec["wrev"] = st["wform"] == "dict"
         loss, params, batch = build_sysloss(rec)
         return loss, params, batch, True
+    if name in ("bnd1d", "bnd2d"):
+        # stationary losses whose boundary conditions are given per facet (dictionaries), in 1-D and in 2-D: evaluated in the same process
+        d = 1 if name == "bnd1d" else 2
+        st = dict(family="C04", lkind="statio", dim=d, form="dict", conds=(["dirichlet", "neumann", "none", "dirichlet"][: 2 * d]), gzero=False,
+                  gret="array", nout=1, comp=1, nb=1 if d == 1 else 2, nt=1)
+        rec = lossrec.expand(st, seed + {"plain": 0, "param": 1, "obs": 2, "both": 3}[variant])
+        loss, params, batch = build_loss(rec)
+        return loss, params, batch, True
     if name == "mlp":
         import warnings
 
